@@ -52,3 +52,228 @@ Proof.
   destruct (attack_board b k I (king_sq_lt _ _ _ Eq)) as (P & C & E & HB). rewrite Ep in E. injection E as <- <-.
   rewrite HB. unfold in_check, checkers, attacked. rewrite Eq. reflexivity.
 Qed.
+
+(* ---------- pseudo-legal destinations: on the board, never an own piece ---------- *)
+Lemma steps_lt s offs x : In x (steps s offs) -> x < 64.
+Proof.
+  unfold steps. intros H. apply in_flat_map in H. destruct H as (o & _ & H). destruct (step s o) as [t|] eqn:E; [|destruct H].
+  destruct H as [<-|[]]. eapply step_lt; eauto.
+Qed.
+Lemma attacks_from_lt p a x : In x (attacks_from p a) -> x < 64.
+Proof.
+  unfold attacks_from. destruct (piece_at p a) as [[t c]|]; [|intros []].
+  destruct t; try (apply steps_lt); intros H; apply in_flat_map in H; destruct H as (d & _ & H); apply reach_sub_line in H; eapply line_lt; eauto.
+Qed.
+Lemma pseudo_dests_lt p s d : mem d (pseudo_dests p s) = true -> d < 64.
+Proof.
+  intros H. apply mem_true in H. unfold pseudo_dests in H. destruct (piece_at p s) as [[t c]|]; [|destruct H].
+  assert (G : In d (filter (fun t0 => negb (color_at p c t0)) (attacks_from p s)) -> d < 64) by (intros X; apply filter_In in X; destruct X as [X _]; eapply attacks_from_lt; eauto).
+  destruct t; try (apply G; exact H).
+  unfold pawn_dests in H. apply in_app_or in H. destruct H as [H|H].
+  - destruct (step s (fwd c, 0%Z)) eqn:E; [|destruct H]. destruct (occupied p s0); [destruct H|]. destruct H as [<-|[]]. eapply step_lt; eauto.
+  - apply in_app_or in H. destruct H as [H|H].
+    + destruct (srank s =? start_rank c); [|destruct H]. destruct (step s (fwd c, 0%Z)); [|destruct H].
+      destruct (step s ((2 * fwd c)%Z, 0%Z)) eqn:E; [|destruct H]. destruct (_ || _); [destruct H|]. destruct H as [<-|[]]. eapply step_lt; eauto.
+    + apply filter_In in H. destruct H as [H _]. eapply steps_lt; eauto.
+Qed.
+Lemma pseudo_not_own p s d t : ep_ok p = true -> piece_at p s = Some (t, stm p) -> mem d (pseudo_dests p s) = true -> color_at p (stm p) d = false.
+Proof.
+  intros Vep Hs H. apply mem_true in H. unfold pseudo_dests in H. rewrite Hs in H.
+  assert (G : In d (filter (fun t0 => negb (color_at p (stm p) t0)) (attacks_from p s)) -> color_at p (stm p) d = false).
+  { intros X. apply filter_In in X. destruct X as [_ X]. now apply negb_true_iff in X. }
+  destruct t; try (apply G; exact H).
+  assert (E : forall x, occupied p x = false -> color_at p (stm p) x = false) by (intros x; unfold occupied, color_at; destruct (piece_at p x) as [[]|]; [discriminate|reflexivity]).
+  unfold pawn_dests in H. apply in_app_or in H. destruct H as [H|H].
+  - destruct (step s (fwd (stm p), 0%Z)); [|destruct H]. destruct (occupied p s0) eqn:O; [destruct H|]. destruct H as [<-|[]]. now apply E.
+  - apply in_app_or in H. destruct H as [H|H].
+    + destruct (srank s =? start_rank (stm p)); [|destruct H]. destruct (step s (fwd (stm p), 0%Z)); [|destruct H].
+      destruct (step s ((2 * fwd (stm p))%Z, 0%Z)); [|destruct H]. destruct (occupied p s0 || occupied p s1) eqn:O; [destruct H|].
+      destruct H as [<-|[]]. apply orb_false_elim in O. now apply E.
+    + apply filter_In in H. destruct H as [_ H]. apply orb_prop in H. destruct H as [H|H].
+      * unfold color_at in *. destruct (piece_at p d) as [[t0 c0]|]; [|reflexivity]. destruct (stm p), c0; cbn in *; congruence.
+      * unfold ep_ok in Vep. destruct (ep p) as [e|]; [|discriminate]. cbn [osq_eqb] in H. apply N.eqb_eq in H. subst e.
+        repeat (apply andb_prop in Vep; destruct Vep as [Vep ?]).
+        match goal with X : negb (occupied p d) = true |- _ => apply negb_true_iff in X; now apply E end.
+Qed.
+
+(* ---------- the successor placement, square by square ---------- *)
+Definition victim_sq (m : pmove) : square := smk (srank (pm_from m)) (sfile (pm_to m)).
+Lemma victim_lt m : pm_from m < 64 -> pm_to m < 64 -> victim_sq m < 64.
+Proof.
+  intros Hs Hd. unfold victim_sq, smk, srank, sfile.
+  assert (pm_from m / 8 < 8) by (apply N.div_lt_upper_bound; lia). assert (pm_to m mod 8 < 8) by (apply N.mod_lt; lia). lia.
+Qed.
+Lemma piece_at_apply p m x : length (placement p) = 64%nat -> pm_from m < 64 -> pm_to m < 64 -> x < 64 ->
+  piece_at (apply_pm p m) x =
+    if x =? pm_to m then Some (match pm_promo m with Some q => q | None => pm_type m end, stm p)
+    else if x =? pm_from m then None
+    else if is_ep_capture p m && (x =? victim_sq m) then None else piece_at p x.
+Proof.
+  intros L Hs Hd Hx. unfold piece_at, apply_pm. cbn [placement].
+  rewrite (nth_put _ (pm_to m) _ x) by (rewrite ?put_length; destruct (is_ep_capture p m); rewrite ?put_length; auto).
+  destruct (x =? pm_to m); [reflexivity|].
+  rewrite (nth_put _ (pm_from m) _ x) by (destruct (is_ep_capture p m); rewrite ?put_length; auto).
+  destruct (x =? pm_from m); [reflexivity|].
+  destruct (is_ep_capture p m); [|reflexivity]. cbn [andb].
+  fold (victim_sq m). rewrite (nth_put _ (victim_sq m) _ x) by (auto using victim_lt). reflexivity.
+Qed.
+(* for an en-passant capture the removed square holds the enemy pawn that just moved *)
+Definition pawn_geo2_ok (c : color) (s d : square) : bool :=
+  negb (mem d (pawn_reach c s)) || negb (srank d =? ep_rank c)
+  || (smk (srank s) (sfile d) =? smk (match c with White => 4 | Black => 3 end) (sfile d)).
+Lemma pawn_geo2_sweep : forallb (fun c => forallb (fun s => forallb (fun d => pawn_geo2_ok c s d) squares) squares) all_colors = true.
+Proof. vm_compute. reflexivity. Qed.
+Lemma ep_victim p m : ep_ok p = true -> pm_from m < 64 -> pm_to m < 64 -> piece_at p (pm_from m) = Some (pm_type m, stm p) ->
+  mem (pm_to m) (pseudo_dests p (pm_from m)) = true -> is_ep_capture p m = true ->
+  piece_at p (victim_sq m) = Some (Pawn, opp (stm p)).
+Proof.
+  intros Vep Hs Hd Hp Hm He. unfold is_ep_capture in He. apply andb_prop in He. destruct He as [Ht Ee].
+  unfold ep_ok in Vep. destruct (ep p) as [e|]; [|discriminate]. cbn [osq_eqb] in Ee. apply N.eqb_eq in Ee. subst e.
+  repeat (apply andb_prop in Vep; destruct Vep as [Vep ?]).
+  assert (Hmem : mem (pm_to m) (pawn_reach (stm p) (pm_from m)) = true).
+  { apply pawn_dests_reach with (p := p). unfold pseudo_dests in Hm. rewrite Hp in Hm. destruct (pm_type m); try discriminate. exact Hm. }
+  pose proof pawn_geo2_sweep as G. rewrite forallb_forall in G. specialize (G (stm p) ltac:(destruct (stm p); cbn; tauto)).
+  pose proof (forallb_squares2 _ G _ _ Hs Hd) as G2. unfold pawn_geo2_ok in G2. rewrite Hmem in G2. cbn [negb orb] in G2.
+  assert (Hr : srank (pm_to m) =? ep_rank (stm p) = true) by (destruct (stm p); exact Vep).
+  rewrite Hr in G2. cbn [negb orb] in G2. apply N.eqb_eq in G2. unfold victim_sq. rewrite G2.
+  match goal with X : opiece_eqb (piece_at p _) (Some (Pawn, opp (stm p))) = true |- _ => apply opiece_eqb_true in X; exact X end.
+Qed.
+
+(* ---------- the mover's king survives every pseudo-legal move ---------- *)
+Lemma valid_parts2 p : valid p = true -> one_king p White = true /\ one_king p Black = true /\ in_check p (opp (stm p)) = false.
+Proof.
+  unfold valid. intros H. repeat (apply andb_prop in H; destruct H as [H ?]).
+  match goal with X : negb (in_check p (opp (stm p))) = true |- _ => apply negb_true_iff in X end. auto.
+Qed.
+Lemma one_king_sq p c : one_king p c = true -> exists k, king_sq p c = Some k /\ k < 64 /\ piece_at p k = Some (King, c).
+Proof.
+  unfold one_king, king_sq. rewrite find_hd_filter. intros H. apply Nat.eqb_eq in H.
+  destruct (filter (fun s => opiece_eqb (piece_at p s) (Some (King, c))) squares) as [|k l] eqn:E; [discriminate|].
+  exists k. split; [reflexivity|]. assert (In k (filter (fun s => opiece_eqb (piece_at p s) (Some (King, c))) squares)) as Hin by (rewrite E; now left).
+  apply filter_In in Hin. destruct Hin as [H1 H2]. split; [now apply In_squares|now apply opiece_eqb_true].
+Qed.
+Lemma king_sq_some p c x : x < 64 -> piece_at p x = Some (King, c) -> king_sq p c <> None.
+Proof.
+  intros Hx Hp H. unfold king_sq in H. pose proof (find_none _ _ H x (proj2 (In_squares x) Hx)) as F. cbv beta in F.
+  rewrite Hp in F. destruct c; discriminate.
+Qed.
+Lemma king_after p m : valid p = true -> pm_from m < 64 -> pm_to m < 64 ->
+  piece_at p (pm_from m) = Some (pm_type m, stm p) -> mem (pm_to m) (pseudo_dests p (pm_from m)) = true ->
+  (pm_type m = King -> pm_promo m = None) -> king_sq (apply_pm p m) (stm p) <> None.
+Proof.
+  intros V Hs Hd Hp Hm Hk. destruct (valid_parts _ V) as (L & _ & _ & Vep). destruct (valid_parts2 _ V) as (KW & KB & _).
+  assert (K1 : one_king p (stm p) = true) by (destruct (stm p); assumption).
+  destruct (one_king_sq p (stm p) K1) as (k & _ & Hk64 & Hkp).
+  destruct (N.eq_dec k (pm_from m)) as [->|Hne].
+  - assert (pm_type m = King) as Ht by congruence. apply (king_sq_some _ _ (pm_to m) Hd).
+    rewrite (piece_at_apply p m _ L Hs Hd Hd), N.eqb_refl, (Hk Ht), Ht. reflexivity.
+  - apply (king_sq_some _ _ k Hk64). rewrite (piece_at_apply p m k L Hs Hd Hk64).
+    pose proof (pseudo_not_own p _ _ _ Vep Hp Hm) as Hno.
+    destruct (N.eqb_spec k (pm_to m)) as [->|Hd'].
+    { unfold color_at in Hno. rewrite Hkp in Hno. destruct (stm p); discriminate. }
+    destruct (N.eqb_spec k (pm_from m)); [contradiction|].
+    destruct (is_ep_capture p m) eqn:Ee; [|exact Hkp]. cbn [andb].
+    destruct (N.eqb_spec k (victim_sq m)) as [->|]; [|exact Hkp].
+    rewrite (ep_victim p m Vep Hs Hd Hp Hm Ee) in Hkp. discriminate.
+Qed.
+
+(* ---------- king safety does not depend on what the moved piece becomes ---------- *)
+Section SameButOne.
+Variables (p1 p2 : pos) (c : color) (d : square).
+Hypothesis Hlen1 : length (placement p1) = 64%nat.
+Hypothesis Hsame : forall x, x <> d -> piece_at p1 x = piece_at p2 x.
+Hypothesis H1 : exists t, piece_at p1 d = Some (t, c) /\ t <> King.
+Hypothesis H2 : exists t, piece_at p2 d = Some (t, c) /\ t <> King.
+Lemma sbo_occupied x : occupied p1 x = occupied p2 x.
+Proof.
+  unfold occupied. destruct (N.eq_dec x d) as [->|Hne]; [|now rewrite Hsame].
+  destruct H1 as (t1 & -> & _), H2 as (t2 & -> & _). reflexivity.
+Qed.
+Lemma sbo_king : king_sq p1 c = king_sq p2 c.
+Proof.
+  unfold king_sq. apply find_ext. intros x _. destruct (N.eq_dec x d) as [->|Hne]; [|now rewrite Hsame].
+  destruct H1 as (t1 & -> & N1), H2 as (t2 & -> & N2). destruct t1, t2, c; try reflexivity; contradiction.
+Qed.
+Lemma sbo_attackers k : attackers p1 (opp c) k = attackers p2 (opp c) k.
+Proof.
+  unfold attackers. apply filter_ext'. intros a _. destruct (N.eq_dec a d) as [->|Hne].
+  - unfold color_at. destruct H1 as (t1 & -> & _), H2 as (t2 & -> & _). now destruct c.
+  - unfold color_at, attacks_from. rewrite (Hsame a Hne). destruct (piece_at p2 a) as [[t c0]|]; [|reflexivity].
+    f_equal. f_equal. destruct t; try reflexivity; apply flat_map_ext; intros dr; unfold reach; apply take_until_ext; apply sbo_occupied.
+Qed.
+Lemma sbo_in_check : in_check p1 c = in_check p2 c.
+Proof. unfold in_check, checkers. rewrite sbo_king. destruct (king_sq p2 c); [|reflexivity]. now rewrite sbo_attackers. Qed.
+End SameButOne.
+Lemma promo_independent p s d q : length (placement p) = 64%nat -> s < 64 -> d < 64 -> q <> King ->
+  in_check (apply_pm p {| pm_type := Pawn; pm_from := s; pm_to := d; pm_promo := Some q |}) (stm p)
+  = in_check (apply_pm p {| pm_type := Pawn; pm_from := s; pm_to := d; pm_promo := None |}) (stm p).
+Proof.
+  intros L Hs Hd Hq. apply (sbo_in_check _ _ (stm p) d).
+  - intros x Hx. destruct (N.lt_ge_cases x 64) as [Hx64|Hx64].
+    + rewrite !(piece_at_apply p _ x L) by (cbn; assumption). cbn [pm_to pm_from pm_promo pm_type].
+      destruct (N.eqb_spec x d); [contradiction|]. reflexivity.
+    + unfold piece_at. rewrite !nth_overflow; [reflexivity| |]; unfold apply_pm; cbn [placement];
+      rewrite !put_length; destruct (is_ep_capture p _); rewrite ?put_length; lia.
+  - exists q. split; [|exact Hq]. rewrite (piece_at_apply p _ d L) by (cbn; assumption). cbn. now rewrite N.eqb_refl.
+  - exists Pawn. split; [|discriminate]. rewrite (piece_at_apply p _ d L) by (cbn; assumption). cbn. now rewrite N.eqb_refl.
+Qed.
+
+(* ---------- castling availability ---------- *)
+Lemma blank2 all f g : f <> g -> is_blank (N.land (N.lxor (bit f) (bit g)) all) = negb (has all f) && negb (has all g).
+Proof.
+  intros Hne. apply bool_eq_iff. rewrite is_blank_spec, andb_true_iff, !negb_true_iff. split.
+  - intros H. split.
+    + pose proof (H f) as X. rewrite has_land, has_lxor, !has_bit, N.eqb_refl in X. destruct (N.eqb_spec g f); [congruence|]. exact X.
+    + pose proof (H g) as X. rewrite has_land, has_lxor, !has_bit, N.eqb_refl in X. destruct (N.eqb_spec f g); [congruence|]. exact X.
+  - intros [Hf Hg] x. rewrite has_land, has_lxor, !has_bit.
+    destruct (f =? x) eqn:E1; destruct (g =? x) eqn:E2; cbn [xorb andb]; try reflexivity.
+    + apply N.eqb_eq in E1. subst x. exact Hf.
+    + apply N.eqb_eq in E2. subst x. exact Hg.
+Qed.
+Lemma blank3 all f g h : f <> g -> f <> h -> g <> h ->
+  is_blank (N.land (N.lxor (N.lxor (bit f) (bit g)) (bit h)) all) = negb (has all f) && negb (has all g) && negb (has all h).
+Proof.
+  intros H1 H2 H3. apply bool_eq_iff. rewrite is_blank_spec, !andb_true_iff, !negb_true_iff. split.
+  - intros H. repeat split.
+    + pose proof (H f) as X. rewrite has_land, !has_lxor, !has_bit, N.eqb_refl in X. destruct (N.eqb_spec g f); [congruence|]. destruct (N.eqb_spec h f); [congruence|]. exact X.
+    + pose proof (H g) as X. rewrite has_land, !has_lxor, !has_bit, N.eqb_refl in X. destruct (N.eqb_spec f g); [congruence|]. destruct (N.eqb_spec h g); [congruence|]. exact X.
+    + pose proof (H h) as X. rewrite has_land, !has_lxor, !has_bit, N.eqb_refl in X. destruct (N.eqb_spec f h); [congruence|]. destruct (N.eqb_spec g h); [congruence|]. exact X.
+  - intros [[Hf Hg] Hh] x. rewrite has_land, !has_lxor, !has_bit.
+    destruct (f =? x) eqn:E1; destruct (g =? x) eqn:E2; destruct (h =? x) eqn:E3; cbn [xorb andb]; try reflexivity;
+    repeat match goal with X : (_ =? _) = true |- _ => apply N.eqb_eq in X end; subst; try assumption; try congruence.
+Qed.
+Lemma castle_squares c : mk_sq (back_rank c) 5 = smk (home_rank c) 5 /\ mk_sq (back_rank c) 6 = smk (home_rank c) 6 /\
+  mk_sq (back_rank c) 3 = smk (home_rank c) 3 /\ mk_sq (back_rank c) 2 = smk (home_rank c) 2 /\ mk_sq (back_rank c) 1 = smk (home_rank c) 1 /\
+  smk (home_rank c) 5 < 64 /\ smk (home_rank c) 6 < 64 /\ smk (home_rank c) 3 < 64 /\ smk (home_rank c) 2 < 64 /\ smk (home_rank c) 1 < 64 /\
+  smk (home_rank c) 5 <> smk (home_rank c) 6 /\ smk (home_rank c) 3 <> smk (home_rank c) 2 /\ smk (home_rank c) 3 <> smk (home_rank c) 1 /\ smk (home_rank c) 2 <> smk (home_rank c) 1.
+Proof. destruct c; cbv; repeat split; try reflexivity; discriminate. Qed.
+
+Lemma castling_spec b cm : MaskInv b -> DerivedInv b -> valid (abs b) = true -> cm = None \/ cm = Some (b_checks b) ->
+  exists r, castling_available b cm = Ok r /\ has_kingside r = castle_legal (abs b) true /\ has_queenside r = castle_legal (abs b) false.
+Proof.
+  intros I D V Hcm. destruct (valid_parts _ V) as (_ & VrW & VrB & _).
+  assert (Hchk : match cm with Some m => m | None => b_checks b end = b_checks b) by (destruct Hcm as [->| ->]; reflexivity).
+  unfold castling_available. rewrite Hchk, (checks_blank b I D), negb_involutive.
+  set (c := b_stm b). destruct (castle_squares c) as (E5 & E6 & E3 & E2 & E1 & L5 & L6 & L3 & L2 & L1 & N56 & N32 & N31 & N21).
+  assert (Vr : right_ok (abs b) c = true) by (unfold c; destruct (b_stm b); assumption).
+  unfold castle_legal. change (stm (abs b)) with c.
+  destruct (in_check (abs b) c) eqn:Ec.
+  { exists Neither. split; [reflexivity|]. rewrite !andb_false_r. cbn. split; reflexivity. }
+  rewrite E5, E6, E3, E2, E1.
+  rewrite !(is_under_attack_spec b _ I) by assumption. fold c. cbn [bind].
+  rewrite (blank2 _ _ _ N56), (blank3 _ _ _ _ N32 N31 N21), <- !(occupied_abs b _ I).
+  assert (Rk : has_kingside (rights_of b c) = right_k (abs b) c) by (unfold right_k; now rewrite rights_abs).
+  assert (Rq : has_queenside (rights_of b c) = right_q (abs b) c) by (unfold right_q; now rewrite rights_abs).
+  rewrite Rk, Rq.
+  assert (Pk : right_k (abs b) c = true -> opiece_eqb (piece_at (abs b) (smk (home_rank c) 4)) (Some (King, c)) = true /\ opiece_eqb (piece_at (abs b) (corner c true)) (Some (Rook, c)) = true).
+  { intros Hr. split; [|apply (right_ok_rook _ _ true Vr Hr)]. unfold right_ok in Vr. apply andb_prop in Vr. destruct Vr as [Vr _]. apply andb_prop in Vr. destruct Vr as [Vr _].
+    rewrite Hr in Vr. exact Vr. }
+  assert (Pq : right_q (abs b) c = true -> opiece_eqb (piece_at (abs b) (smk (home_rank c) 4)) (Some (King, c)) = true /\ opiece_eqb (piece_at (abs b) (corner c false)) (Some (Rook, c)) = true).
+  { intros Hr. split; [|apply (right_ok_rook _ _ false Vr Hr)]. unfold right_ok in Vr. apply andb_prop in Vr. destruct Vr as [Vr _]. apply andb_prop in Vr. destruct Vr as [Vr _].
+    rewrite Hr, orb_true_r in Vr. exact Vr. }
+  destruct (right_k (abs b) c) eqn:Hrk; destruct (right_q (abs b) c) eqn:Hrq; cbn [bind andb]; (eexists; split; [reflexivity|]);
+  cbn [forallb negb]; rewrite ?andb_true_r;
+  try (destruct (Pk eq_refl) as [A1 A2]; rewrite ?A1, ?A2); try (destruct (Pq eq_refl) as [A3 A4]; rewrite ?A3, ?A4); cbn [andb];
+  repeat match goal with |- context [attacked ?p ?cc ?x] => destruct (attacked p cc x) end;
+  repeat match goal with |- context [occupied ?p ?x] => destruct (occupied p x) end; split; reflexivity.
+Qed.
